@@ -55,7 +55,7 @@ def main():
 
     # ------------------------------------------------------------ validation
     free = vell + vprj + [S.is_int(zone.t)]
-    okv, nraise, bad = True, 0, None
+    okv, nraise, bad, nret = True, 0, None, 0
     inside = z3.And(zone.t >= 0, zone.t <= 60, east.t >= -2830000, east.t <= 3830000, north.t >= 0, north.t <= 10000000)
     for hemi in ('south', 'North'):
         paths = L.run_grid2geo(cv, g2g, sm, zone, east, north, hemi, ell, prj, free)
@@ -68,6 +68,7 @@ def main():
                     okv, bad = False, p['val']
                 s.add(inside)
             else:
+                nret += 1
                 s.add(z3.Not(inside))
             if s.check() != z3.unsat:
                 okv, bad = False, (p['kind'], p['decisions'])
@@ -78,7 +79,8 @@ def main():
         except (ValueError, AttributeError):
             nbad += 1
     P.oblige('grid2geo.validation', 'convert.grid2geo', 'all paths, both hemispheres',
-             dict(result='discharged' if okv and nraise >= 6 and nbad == 4 else 'sat', backend=E.Z3V, ms=0), strict=True,
+             dict(result='discharged' if okv and nraise >= 6 and nbad == 4 else ('sat' if nret else 'engine: no path of the loop-cut function runs past the validation (%r)' % (bad,)), backend=E.Z3V, ms=0),
+             strict=True, soft=not nret,
              note='ValueError exactly when zone outside 0..60, easting outside [-2830000,3830000], northing outside [0,1e7] or hemisphere not north/south; %r' % (bad,))
 
     # ------------------------------------------------------------ formula obligations per hemisphere and loop exit
